@@ -91,7 +91,7 @@ pub fn ps(pubs: &[usize], subs: usize, order: &str, faults: bool, close: bool, h
 fn ps_set(topos: &[(&[usize], usize)], faults: bool, close: bool, hostile: bool, bound: usize, out: &mut Vec<Spec>) {
     for (pubs, subs) in topos {
         let mut orders = vec!["sf", "pf"];
-        if pubs.len() + subs >= 3 && *subs >= 1 && !pubs.is_empty() {
+        if pubs.len() + subs >= 3 && *subs >= 2 && !pubs.is_empty() {
             orders.push("il");
         }
         if pubs.is_empty() || *subs == 0 {
@@ -228,7 +228,21 @@ fn routing_families(tier: &str, bound: usize, out: &mut Vec<Spec>) {
     }
 }
 
+/// long bursts: anything keyed to a count (poll budgets, batch thresholds) below ~128 shows up
+fn burst_families(out: &mut Vec<Spec>) {
+    out.push(Spec { scn: Scn::Ps(ps(&[130], 1, "sf", false, false, false)), bound: 1 });
+    out.push(Spec { scn: Scn::Ps(ps(&[40, 40], 2, "sf", false, false, false)), bound: 1 });
+    out.push(Spec { scn: Scn::Ps(ps(&[70], 2, "pf", false, true, false)), bound: 1 });
+    out.push(Spec { scn: Scn::Rr(rr("burst", vec![plain(70)], vec![vec![]], "rf", vec![0], false, false, false, false, "C02")), bound: 1 });
+    out.push(Spec { scn: Scn::Rr(rr("burst2", vec![plain(34), plain(34)], vec![vec![]], "qf", vec![1, 0], false, false, false, false, "C02")), bound: 1 });
+}
+
 fn one_sided(bound: usize, out: &mut Vec<Spec>) {
+    // peers that connect and then stay silent
+    ps_set(&[(&[0], 1), (&[0, 1], 1)], false, false, false, bound, out);
+    out.push(Spec { scn: Scn::Rr(rr("idle-requestor", vec![vec![]], vec![], "qf", vec![0], false, false, false, false, "C02")), bound });
+    out.push(Spec { scn: Scn::Rr(rr("idle-requestor-replier", vec![vec![]], vec![vec![]], "rf", vec![0], false, false, true, false, "C02")), bound });
+    out.push(Spec { scn: Scn::Rr(rr("idle-and-busy", vec![vec![], plain(1)], vec![vec![]], "rf", vec![0, 1], false, false, false, false, "C02")), bound });
     // pub/sub: nobody, only subscribers, only publishers
     ps_set(&[(&[], 0), (&[], 2), (&[2, 1], 0)], false, false, false, bound, out);
     // req/rep: nobody, only a replier, only requestors, replier leaves while requestors stay
@@ -240,7 +254,10 @@ fn one_sided(bound: usize, out: &mut Vec<Spec>) {
 }
 
 fn shutdown_families(bound: usize, out: &mut Vec<Spec>) {
-    ps_set(&[(&[], 0), (&[2], 1), (&[1, 1], 2), (&[2], 0), (&[], 2)], false, true, false, bound, out);
+    ps_set(&[(&[], 0), (&[2], 1), (&[1, 1], 2), (&[2], 0), (&[], 2), (&[0], 1), (&[0], 0)], false, true, false, bound, out);
+    out.push(Spec { scn: Scn::Rr(rr("idle-requestor", vec![vec![]], vec![], "qf", vec![0], false, true, false, false, "C16")), bound });
+    out.push(Spec { scn: Scn::Rr(rr("idle-requestor-replier", vec![vec![]], vec![vec![]], "rf", vec![0], false, true, false, false, "C16")), bound });
+    out.push(Spec { scn: Scn::Rr(rr("idle-requestor-replier", vec![vec![]], vec![vec![]], "qf", vec![0], false, true, false, false, "C16")), bound });
     out.push(Spec { scn: Scn::Rr(rr("none", vec![], vec![], "rf", vec![], false, true, false, false, "C16")), bound });
     out.push(Spec { scn: Scn::Rr(rr("basic", vec![plain(2)], vec![vec![]], "rf", vec![0], false, true, false, false, "C16")), bound });
     out.push(Spec { scn: Scn::Rr(rr("only-requestors", vec![plain(1)], vec![], "qf", vec![0], false, true, false, false, "C16")), bound });
@@ -299,7 +316,9 @@ pub fn families(id: &str, tier: &str) -> Vec<Spec> {
     match id {
         "C01" => {
             let b = if thorough { 5 } else { 3 };
-            ps_set(&[(&[2], 1), (&[2], 2), (&[2, 2], 1), (&[2, 2], 2), (&[1], 3)], false, false, false, b, &mut out);
+            ps_set(&[(&[2], 1), (&[2], 2), (&[2, 2], 1), (&[2, 2], 2), (&[1], 3), (&[0, 1], 1)], false, false, false, b, &mut out);
+            burst_families(&mut out);
+            out.retain(|s| matches!(s.scn, Scn::Ps(_)));
             if thorough {
                 ps_set(&[(&[3], 2), (&[2, 1], 3), (&[3, 3], 2)], false, false, false, 4, &mut out);
                 // tiny topologies without any bound
@@ -308,12 +327,15 @@ pub fn families(id: &str, tier: &str) -> Vec<Spec> {
         }
         "C02" | "C10" => {
             routing_families(tier, if thorough { 4 } else { 3 }, &mut out);
+            burst_families(&mut out);
+            out.retain(|s| matches!(s.scn, Scn::Rr(_)));
         }
         "C08" => fault_families(tier, if thorough { 5 } else { 4 }, &mut out),
         "C09" => {
             let b = if thorough { 4 } else { 3 };
             ps_set(&[(&[2], 1), (&[2], 2), (&[2, 2], 1), (&[2, 2], 2), (&[1], 3)], false, false, false, b, &mut out);
             routing_families(tier, b, &mut out);
+            burst_families(&mut out);
             one_sided(b, &mut out);
             shutdown_families(b.saturating_sub(1), &mut out);
             if thorough {
